@@ -50,6 +50,7 @@ type Item struct {
 	Hash64 uint64 `json:"hash64,omitempty"`
 	Body   uint64 `json:"body"`
 	Local  bool   `json:"local,omitempty"`
+	Create uint64 `json:"create,omitempty"`
 }
 
 func hx(s string) string { return hex.EncodeToString([]byte(s)) }
@@ -64,7 +65,7 @@ func unhx(s string) string {
 func (it Item) raw() consul.VerifReplItem {
 	h, _ := hex.DecodeString(it.Hash)
 	return consul.VerifReplItem{Kind: unhx(it.Kind), ID: unhx(it.ID), Mod: it.Mod, Hash: h, NilH: it.NilH,
-		Hash64: it.Hash64, Body: strconv.FormatUint(it.Body, 10), Local: it.Local}
+		Hash64: it.Hash64, Body: strconv.FormatUint(it.Body, 10), Local: it.Local, Create: it.Create}
 }
 
 func fromRaw(r consul.VerifReplItem) Item {
@@ -929,7 +930,12 @@ func main() {
 	tabp := flag.String("tab", "", "tables, JSON lines (one table per line)")
 	replay := flag.String("replay", "", "re-run the case stored in a replay file")
 	explain := flag.String("explain", "", "inst:idx  print the decoded table case")
+	probe := flag.Bool("probe", false, "run the hand-written scenarios and print what the real code did")
 	flag.Parse()
+	if *probe {
+		doProbe()
+		return
+	}
 
 	if *replay != "" {
 		os.Exit(doReplay(*replay))
@@ -1199,3 +1205,79 @@ func doReplay(path string) int {
 }
 
 var _ = bytes.Equal
+
+// ---------------------------------------------------------------------------------------------- probes
+func attr(content uint64, k uint64) uint64 { return content | k<<20 }
+
+func doProbe() {
+	var err error
+	if srv, err = consul.VerifReplNewServer(); err != nil {
+		panic(err)
+	}
+	it := func(kind, id string, mod, body uint64) Item {
+		x := Item{Kind: hx(kind), ID: hx(id), Mod: mod, Body: body, Hash: hex.EncodeToString([]byte{byte(body), byte(body >> 8), byte(body >> 16), byte(body >> 20), 0x5a}), Hash64: 1000 + body}
+		if kind != "" {
+			x.Hash = ""
+		}
+		return x
+	}
+	show := func(l []Item) string {
+		var b strings.Builder
+		for _, x := range l {
+			fmt.Fprintf(&b, " [%s/%s mod=%d body=%d attr=%d]", unhx(x.Kind), unhx(x.ID), x.Mod, x.Body&0xfffff, x.Body>>20)
+		}
+		return b.String()
+	}
+	run := func(title, inst string, st, rem []Item, ri, last uint64, opts consul.VerifReplOpts) consul.VerifReplRound {
+		r, err := srv.RoundOpts(inst, raws(roundSafe(inst, st)), raws(roundSafe(inst, rem)), ri, last, opts)
+		fmt.Printf("== %s (%s)\n   err=%q ret=%d writes=%d\n   final:%s\n", title, inst, r.Err, r.RetIndex, r.Writes, show(froms(r.Final)))
+		if err != nil {
+			fmt.Println("   HARNESS ERROR", err)
+		}
+		return r
+	}
+	for _, inst := range []string{"policy", "role"} {
+		st := []Item{it("", "p1", 3, attr(1, 1)), it("", "p2", 3, attr(2, 2))}
+		run("name swap", inst, st, []Item{it("", "p1", 8, attr(3, 2)), it("", "p2", 9, attr(4, 1))}, 10, 5, consul.VerifReplOpts{})
+		run("name swap, again on the state left", inst, nil, []Item{it("", "p1", 8, attr(3, 2)), it("", "p2", 9, attr(4, 1))}, 10, 0, consul.VerifReplOpts{Keep: true})
+		run("chain p1:1->2 p2:2->3", inst, st, []Item{it("", "p1", 8, attr(3, 2)), it("", "p2", 9, attr(4, 3))}, 10, 5, consul.VerifReplOpts{})
+		run("chain p2:2->1' p1:1->3", inst, st, []Item{it("", "p1", 8, attr(3, 3)), it("", "p2", 9, attr(4, 1))}, 10, 5, consul.VerifReplOpts{})
+		run("delete p1 (name 1), create p3 with name 1", inst, st, []Item{it("", "p3", 8, attr(3, 1)), it("", "p2", 3, attr(2, 2))}, 10, 5, consul.VerifReplOpts{})
+	}
+	sd, rt, ig := "service-defaults", "service-router", "ingress-gateway"
+	both := []Item{it(sd, "a", 3, attr(1, 1)), it(rt, "a", 3, 2)}
+	run("delete service-defaults{http}+router together", "config", both, nil, 10, 5, consul.VerifReplOpts{})
+	run("  second round", "config", nil, nil, 11, 10, consul.VerifReplOpts{Keep: true})
+	run("create service-defaults{http}+router together", "config", nil, both, 10, 5, consul.VerifReplOpts{})
+	gw := []Item{it(sd, "a", 8, attr(1, 1)), it(ig, "a", 8, 2)}
+	run("create ingress-gateway+service-defaults{http} together", "config", nil, gw, 10, 5, consul.VerifReplOpts{})
+	run("  second round", "config", nil, gw, 10, 0, consul.VerifReplOpts{Keep: true})
+	run("delete ingress-gateway+service-defaults{http} together", "config", gw, nil, 10, 5, consul.VerifReplOpts{})
+	run("protocol http->tcp while a router exists (primary deleted router too)", "config", both, []Item{it(sd, "a", 8, 5)}, 10, 5, consul.VerifReplOpts{})
+	run("  second round", "config", nil, []Item{it(sd, "a", 8, 5)}, 10, 0, consul.VerifReplOpts{Keep: true})
+
+	// two snapshots of the primary
+	oldT, newT := it("", "t1", 5, 1), it("", "t1", 10, 2)
+	for _, inst := range []string{"token", "policy"} {
+		run("batch read OLDER than the list (object known to the secondary in its old version)", inst, []Item{oldT}, []Item{newT}, 12, 6,
+			consul.VerifReplOpts{TwoSnapshots: true, Batch: raws(roundSafe(inst, []Item{oldT}))})
+		run("  next round, one snapshot, last = returned index", inst, nil, []Item{newT}, 12, 12, consul.VerifReplOpts{Keep: true})
+		run("batch read OLDER than the list (object new to the secondary)", inst, nil, []Item{newT}, 12, 4,
+			consul.VerifReplOpts{TwoSnapshots: true, Batch: raws(roundSafe(inst, []Item{oldT}))})
+		run("  next round, one snapshot, last = returned index", inst, nil, []Item{newT}, 12, 12, consul.VerifReplOpts{Keep: true})
+		created := newT
+		created.Create = 5 // created at 5, modified at 10; the lagging server is at 4 and does not have it
+		run("batch read lacks an object created at 5 and modified at 10", inst, nil, []Item{created}, 12, 4,
+			consul.VerifReplOpts{TwoSnapshots: true, Batch: nil})
+		run("  next round, one snapshot, last = returned index", inst, nil, []Item{created}, 12, 12, consul.VerifReplOpts{Keep: true})
+		fresh := newT
+		fresh.Create = 10
+		run("batch read lacks an object created at 10", inst, nil, []Item{fresh}, 12, 4,
+			consul.VerifReplOpts{TwoSnapshots: true, Batch: nil})
+		newer := it("", "t1", 14, 3)
+		run("batch read NEWER than the list", inst, []Item{oldT}, []Item{newT}, 12, 6,
+			consul.VerifReplOpts{TwoSnapshots: true, Batch: raws(roundSafe(inst, []Item{newer}))})
+		run("  next round, one snapshot at 14", inst, nil, []Item{newer}, 14, 12, consul.VerifReplOpts{Keep: true})
+	}
+	srv.Close()
+}
